@@ -497,7 +497,8 @@ func TransformJSONProtoToDSL(model *openfgav1.AuthorizationModel, opts ...Transf
 	}
 
 	typeDefinitions := []string{}
-	typeDefs := model.GetTypeDefinitions()
+	// work on a copy of the slice: modular models are sorted below, and the caller's model must stay untouched
+	typeDefs := slices.Clone(model.GetTypeDefinitions())
 	isModularModel := false
 
 	for index := 0; index < len(typeDefs); index++ {
